@@ -666,6 +666,204 @@ def check_vault_invalid_history(ctx: Ctx, rule: str) -> None:
             ctx.ob(rule, 'Vault.invalidate: the item being invalidated is appended to the history (the trimmed tail of earlier ones is kept)', has_current and
                    isinstance(n.value, ast.BinOp) and isinstance(n.value.op, ast.Add), loc=inv.loc(n), construct=construct(inv, 'flow:_invalid += current'), detail=norm(n.value, 80))
 
+
+def check_finalizer_scan_raw_list(ctx: Ctx, rule: str) -> None:
+    """registries.*.requires_finalizer: the scan for a handler that requires the finalizer ranges over the registry's raw handler list, not over a
+    de-duplicated getter (de-duplication keeps the FIRST registration of a function only: a later registration whose filters do match would be ignored and
+    the mandatory deletion handler would not hold the object)."""
+    repo = ctx.repo
+    n = 0
+    for cname in ('ChangingRegistry', 'SpawningRegistry'):
+        f = repo.fn(f'registries.{cname}.requires_finalizer')
+        ctx.analysed(f)
+        loops = [x for x in walk_no_defs(f.node) if isinstance(x, ast.For)]
+        its = [x.iter for x in loops] + [g.iter for c in walk_no_defs(f.node) if isinstance(c, (ast.GeneratorExp, ast.ListComp)) for g in c.generators]
+        for it in its:
+            n += 1
+            ctx.ob(rule, f'{cname}.requires_finalizer scans every registered handler (self._handlers), each judged by its own criteria', dotted(it) == 'self._handlers',
+                   loc=f.loc(it), construct=construct(f, 'flow:scan over self._handlers'), detail=norm(it, 60))
+    ctx.require_sites(rule, 'requires_finalizer: handler scans', n, 2)
+
+
+def check_postponed_cancellation(ctx: Ctx, rule: str) -> None:
+    """invocation.invoke: a cancellation that arrives while a synchronous handler's thread runs is postponed, not dropped: it is remembered by the waiting loop
+    and re-raised once the thread has exited, whatever the thread's outcome (a swallowed cancellation lets a cancelled task carry on: a stopped operator
+    proceeds with start-up, an abandoned daemon keeps patching)."""
+    repo = ctx.repo
+    f, g = cfg_of(ctx, 'invocation.invoke')
+    loops = [lp for lp in walk_no_defs(f.node) if isinstance(lp, ast.While) and any(method_call(c, 'done') is not None for c in calls_in(lp.test))]
+    ctx.require_sites(rule, 'invoke: loop waiting for the executor future', len(loops), 1, f.loc())
+    for lp in loops:
+        hs = [h for t in ast.walk(lp) if isinstance(t, ast.Try) for h in t.handlers
+              if h.type is not None and (repo.resolve(f.module, h.type) or '').endswith('CancelledError')]
+        ctx.require_sites(rule, 'invoke: handler of CancelledError around the shielded wait', len(hs), 1, f.loc(lp))
+        kept = set()
+        for h in hs:
+            for st in h.body:
+                if isinstance(st, ast.Assign) and isinstance(st.value, ast.Name) and st.value.id == h.name:
+                    kept |= {t.id for t in st.targets if isinstance(t, ast.Name)}
+        ctx.ob(rule, 'invoke: the cancellation caught while the thread runs is remembered', bool(kept), loc=f.loc(lp), construct=construct(f, 'flow:cancellation remembered'))
+        raises = [n for n in g.nodes if n.kind == 'raise' and isinstance(n.stmt, ast.Raise) and isinstance(n.stmt.exc, ast.Name) and n.stmt.exc.id in kept
+                  and n.lineno > lp.lineno]
+        ctx.ob(rule, 'invoke: the remembered cancellation is re-raised after the loop', bool(raises), loc=f.loc(lp), construct=construct(f, 'allexits:cancellation re-raised'))
+        for r in raises:
+            conds = [(t, o) for t, o in dominating_conditions_of(g, r) if getattr(t, 'lineno', 0) > lp.lineno]
+            only_presence = all(_names_of(t) <= kept for t, o in conds)
+            ctx.ob(rule, 'invoke: the re-raise depends on nothing but "a cancellation was caught" (not on the outcome of the thread)', only_presence, loc=f.loc(r.stmt),
+                   construct=construct(f, 'guard:re-raise iff cancelled'), detail='; '.join(f'{norm(t, 50)}={o}' for t, o in conds))
+
+
+def check_fresh_deadline(ctx: Ctx, rule: str, ref: str = 'queueing.worker', deadline: str = 'consistency_time') -> None:
+    """A deadline variable is computed from / compared with clock samples taken at that very point: no suspension point lies between a clock sample and its
+    use in arithmetic with the deadline (a sample taken before an await makes the window shorter by the time awaited -- here: by the handler's run time)."""
+    repo = ctx.repo
+    f, g = cfg_of(ctx, ref)
+    aliases = _clock_aliases(f)
+    sites = []
+    for n in g.nodes:
+        if n.kind not in ('stmt', 'if', 'loop') or n.stmt is None:
+            continue
+        for e in g.own_exprs(n):
+            for b in ast.walk(e):
+                if isinstance(b, ast.BinOp) and isinstance(b.op, (ast.Add, ast.Sub)):
+                    assigned = isinstance(n.stmt, ast.Assign) and n.stmt.value is b and any(dotted(t) == deadline for t in n.stmt.targets)
+                    operand = any(dotted(x) == deadline for x in (b.left, b.right))
+                    if assigned or operand:
+                        sites.append((n, b))
+    ctx.require_sites(rule, f'{f.name}: arithmetic on `{deadline}`', len(sites), 2, f.loc())
+    for n, b in sites:
+        stale, clockish = [], 0
+        for x in ast.walk(b):
+            if _is_clock_call(x, aliases):
+                clockish += 1
+            elif isinstance(x, ast.Name) and x.id not in aliases and x.id != deadline:
+                defs = [d for d in g.nodes if d.kind == 'stmt' and isinstance(d.stmt, ast.Assign) and any(isinstance(t, ast.Name) and t.id == x.id for t in d.stmt.targets)
+                        and _is_clock_call(d.stmt.value, aliases)]
+                if defs:
+                    clockish += 1
+                    susp = g.suspensions_between(defs, [n])
+                    if susp:
+                        stale.append((x.id, susp[0].lineno))
+        ctx.ob(rule, f'{f.name}: the clock value combined with `{deadline}` is sampled at that very point (no await between sampling and use)', clockish > 0 and not stale,
+               loc=f.loc(n.stmt), construct=construct(f, f'fresh:clock in {deadline} arithmetic'),
+               detail='; '.join(f'`{v}` is sampled before the suspension point at L{ln}' for v, ln in stale) or ('no clock operand' if not clockish else ''))
+
+
+def check_session_closed_in_loop(ctx: Ctx, rule: str) -> None:
+    """api.request: the "session is closed" condition (another request's 401 made the vault close the shared session) is recognised on EVERY attempt: the raise of
+    APISessionClosed sits in a handler of the very try that performs the attempt, inside the retry loop -- so a request sleeping in its backoff is re-run with
+    the fresh credentials instead of failing with a bare RuntimeError."""
+    repo = ctx.repo
+    f = repo.fn('api.request')
+    ctx.analysed(f)
+    raises = [r for r in walk_no_defs(f.node) if isinstance(r, ast.Raise) and r.exc is not None and 'APISessionClosed' in src(r.exc, 200)]
+    ctx.require_sites(rule, 'request: raise of APISessionClosed', len(raises), 1, f.loc())
+    loops = [lp for lp in walk_no_defs(f.node) if isinstance(lp, (ast.For, ast.While))]
+    good = 0
+    details = []
+    for r in raises:
+        in_handler = None
+        for t in walk_no_defs(f.node):
+            if isinstance(t, ast.Try):
+                for h in t.handlers:
+                    if any(x is r for x in ast.walk(h)):
+                        in_handler = (t, h)
+        attempt = in_handler is not None and any(isinstance(c, ast.Call) and (method_call(c, 'request') is not None) for st in in_handler[0].body for c in ast.walk(st))
+        in_loop = any(any(x is r for x in ast.walk(lp)) for lp in loops)
+        closed = any(isinstance(x, ast.Attribute) and x.attr == 'closed' for _t in ([in_handler[1]] if in_handler else []) for x in ast.walk(_t))
+        good += bool(attempt and in_loop and closed)
+        details.append(f'L{r.lineno}: in handler of the attempt={attempt}, inside the loop={in_loop}, tests closed={closed}')
+    ctx.ob(rule, 'request: APISessionClosed is raised under `session.closed` from a handler of the attempt\'s own try, inside the retry loop', good >= 1,
+           loc=f.loc(raises[0]) if raises else f.loc(), construct=construct(f, 'dispatch:session-closed per attempt'), detail='; '.join(details))
+
+
+def check_clean_before_sleep(ctx: Ctx, rule: str) -> None:
+    """peering.process_peering_event: expired records are cleaned right after they were classified, before the (long, interruptible) wait for the peers' deadlines:
+    a list of dead peers that is acted upon after the wait is stale -- a peer that re-announced itself meanwhile would have its fresh record deleted."""
+    repo = ctx.repo
+    f, g = cfg_of(ctx, 'peering.process_peering_event')
+    cleans = g.call_nodes('peering.clean')
+    sleeps = g.call_nodes('aiotime.sleep')
+    ctx.require_sites(rule, 'process_peering_event: clean(dead peers)', len(cleans), 1, f.loc())
+    ctx.require_sites(rule, 'process_peering_event: wait for the deadlines', len(sleeps), 1, f.loc())
+    after = g.reach(sleeps)
+    ctx.ob(rule, 'process_peering_event: clean(dead_peers) is not reachable from the wait (the classification it acts on was made in this very activation, with no '
+                 'suspension point in between other than the pause toggle)', not (set(cleans) & after), loc=f.loc(cleans[0].stmt) if cleans else f.loc(),
+           construct=construct(f, 'order:clean before the wait'))
+
+
+def check_pressure_on_every_put(ctx: Ctx, rule: str) -> None:
+    """queueing.watcher: every event handed to a stream raises that stream's pressure flag, unconditionally (listed pseudo-events included): the flag is what wakes
+    a processor sleeping at the consistency barrier or for handler delays; an event queued without it waits for the sleep to run out."""
+    repo = ctx.repo
+    f, g = cfg_of(ctx, 'queueing.watcher')
+    puts = g.stmt_nodes(lambda x: isinstance(x, ast.Call) and method_call(x, 'put') is not None and 'backlog' in (dotted(method_call(x, 'put')) or src(method_call(x, 'put'))))
+    sets = g.stmt_nodes(lambda x: isinstance(x, ast.Call) and method_call(x, 'set') is not None and 'pressure' in (dotted(method_call(x, 'set')) or src(method_call(x, 'set'))))
+    ctx.require_sites(rule, 'watcher: backlog.put of a stream event', len(puts), 2, f.loc())
+    ctx.require_sites(rule, 'watcher: pressure.set()', len(sets), 2, f.loc())
+    for pn in puts:
+        # the closest dominating set: a set node from which the put is reachable, and every condition dominating... simply: no path from the loop head to this put avoids all sets
+        loops = [n for n in g.nodes if n.kind == 'loop' and isinstance(n.stmt, ast.AsyncFor)]
+        r = g.reach(loops or [g.entry], stop=lambda n: n in set(sets))
+        ctx.ob(rule, 'watcher: on every path of one iteration to backlog.put(event) the stream\'s pressure flag was set first', pn not in r, loc=f.loc(pn.stmt),
+               construct=construct(f, 'dom:pressure.set < backlog.put'))
+
+
+def check_mapping_results_merged(ctx: Ctx, rule: str) -> None:
+    """progression.deliver_results: a mapping result is MERGED into what the cycle's patch already holds under status.<handler id> (`.update`), it does not replace it:
+    two deliveries under one key in one cycle (a function registered for two causes, a handler that also wrote patch.status[<own id>]) both reach the API."""
+    from .. import absint
+    repo = ctx.repo
+    f = repo.fn('progression.deliver_results')
+    ctx.analysed(f)
+    loops = [n for n in walk_no_defs(f.node) if isinstance(n, ast.For)]
+    ctx.require_sites(rule, 'deliver_results: loop over the outcomes', len(loops), 1, f.loc())
+    for lp in loops:
+        def effect(it, path, call, names):
+            return 'merge' if isinstance(call.func, ast.Attribute) and call.func.attr == 'update' else None
+        paths = absint.analyse(repo, f, absint.Config(effect=effect), stmts=lp.body)
+        n = 0
+        for p in paths:
+            is_map = any(('Mapping' in k) and v is True for k, v in p.atoms.items())
+            if not is_map:
+                continue
+            n += 1
+            merges = [e for e in p.trace if e.label == 'merge']
+            replaces = [e for e in p.trace if e.label.startswith('setitem:')]
+            ctx.ob(rule, 'deliver_results: a mapping result is merged (update) into the entry of the patch, never assigned over it', bool(merges) and not replaces, loc=f.loc(lp),
+                   construct=construct(f, 'table:mapping result => merge'), detail=f'{len(merges)} merge(s), {len(replaces)} replacement(s)')
+        ctx.require_sites(rule, 'deliver_results: path for mapping results', n, 1, f.loc())
+
+
+def check_reconnect_classes(ctx: Ctx, rule: str) -> None:
+    """watching.continuous_watch / watch_objs: the except arms that end the request QUIETLY (re-list / reconnect) catch connection-level classes only -- the closed list
+    ClientConnectionError, ClientPayloadError, TimeoutError; anything wider (ClientError, OSError, Exception) would turn a permanent fault, e.g. a non-JSON answer, into
+    an endless silent re-listing instead of a failure that stops the operator."""
+    repo = ctx.repo
+    allowed = {'aiohttp.ClientConnectionError', 'aiohttp.ClientPayloadError', 'asyncio.TimeoutError', 'TimeoutError', 'builtins.TimeoutError',
+               'aiohttp.client_exceptions.ClientConnectionError', 'aiohttp.client_exceptions.ClientPayloadError'}
+    n = 0
+    for ref in ('watching.continuous_watch', 'watching.watch_objs'):
+        f = repo.fn(ref)
+        ctx.analysed(f)
+        for t in walk_no_defs(f.node):
+            if not isinstance(t, ast.Try):
+                continue
+            for h in t.handlers:
+                quiet = not any(isinstance(x, ast.Raise) for st in h.body for x in ast.walk(st))
+                if not quiet or h.type is None:
+                    if h.type is None:
+                        ctx.ob(rule, f'{f.name}: no bare `except:`', False, loc=f.loc(h), construct=construct(f, 'dispatch:quiet handler classes'))
+                    continue
+                classes = [repo.resolve(f.module, c) or src(c) for c in (h.type.elts if isinstance(h.type, ast.Tuple) else [h.type])]
+                if all(c.endswith('APIError') or c.endswith('errors.APITooManyRequestsError') for c in classes) or any('errors.' in c for c in classes):
+                    continue            # API-level arms are decided by R19.2 / R19.6
+                n += 1
+                wide = [c for c in classes if c not in allowed]
+                ctx.ob(rule, f'{f.name}: a handler that ends the request quietly catches only connection-level classes (ClientConnectionError, ClientPayloadError, TimeoutError)',
+                       not wide, loc=f.loc(h), construct=construct(f, 'dispatch:quiet handler classes'), detail=f'also catches {wide}')
+    ctx.require_sites(rule, 'watching: quiet reconnect handlers', n, 2)
+
 # ---------------------------------------------------------------------------------------------------------------- cross-wiring
 def _c01_worker(ctx: Ctx, rule: str) -> None:
     from . import C01
@@ -747,7 +945,7 @@ def _c02_sibling(ctx: Ctx, rule: str) -> None:
 
 EXTRA = {
     # new rules
-    'C19': [(check_condvar_toggles, 'R19.40'), (check_condvar_backbone, 'R19.41'), (check_subresource_boundary, 'R19.42')],
+    'C19': [(check_condvar_toggles, 'R19.50'), (check_condvar_backbone, 'R19.51'), (check_subresource_boundary, 'R19.52')],
     'C13': [(check_condvar_toggles, 'R13.25'), (_terminate, 'R13.24'), (_closing_flag, 'R13.6')],
     'C17': [(check_condvar_toggles, 'R17.26')],
     'C01': [(check_condvar_scheduler, 'R1.22'), (_c19_stream, 'R1.13')],
@@ -799,3 +997,67 @@ KINDS = {
     'C19': _CV + ' (toggles, backbone, containers); BOUNDARY: subresource discovery',
     'C20': _CV + ' (Scheduler, backbone); cross-wired staged-termination rule set of C09 for the exit path',
 }
+
+
+# ---------------------------------------------------------------------------------------------------------------- round 4 wiring
+def _c19_list_objs(ctx: Ctx, rule: str) -> None:
+    from . import _x_cluster
+    _x_cluster.check_list_objs(ctx, rule)
+
+
+def _c19_spawn_keys(ctx: Ctx, rule: str) -> None:
+    from . import _x_cluster
+    _x_cluster.check_spawn_keys(ctx, rule)
+
+
+def _sleep_table(ctx: Ctx, rule: str) -> None:
+    from . import _x_tasks
+    _x_tasks.check_sleep(ctx, rule)
+
+
+def _c04_siblings2(ctx: Ctx, rule: str) -> None:
+    _c04_siblings(ctx, rule)
+
+
+def _c09_spawn(ctx: Ctx, rule: str) -> None:
+    from . import C09
+    include(ctx, C09.check_spawn_and_runner, rule, 'C09')
+
+
+def _c08_carry(ctx: Ctx, rule: str) -> None:
+    from . import C08
+    C08.check_carry_forward(ctx, rule_prefix=rule)
+
+
+def _c20_own(ctx: Ctx, rule: str) -> None:
+    from . import C20
+    include(ctx, C20.check_ownership, rule, "C20")
+
+
+EXTRA['C06'] += [(check_finalizer_scan_raw_list, 'R6.23'), (_c09_spawn, 'R6.8')]
+EXTRA['C15'] += [(check_finalizer_scan_raw_list, 'R15.10')]
+EXTRA['C08'] += [(check_postponed_cancellation, 'R8.11'), (check_mapping_results_merged, 'R8.12')]
+EXTRA['C20'] += [(check_postponed_cancellation, 'R20.27'), (check_reconnect_classes, 'R20.28')]
+EXTRA['C09'] = [(check_postponed_cancellation, 'R9.12')]
+EXTRA['C19'] += [(check_reconnect_classes, 'R19.53')]
+EXTRA['C11'] += [(check_fresh_deadline, 'R11.10'), (_c19_list_objs, 'R11.11')]
+EXTRA['C07'] = [(check_fresh_deadline, 'R7.8'), (check_pressure_on_every_put, 'R7.7')]
+EXTRA['C12'] += [(check_session_closed_in_loop, 'R12.32')]
+EXTRA['C13'] += [(check_clean_before_sleep, 'R13.26'), (_c20_own, 'R13.27')]
+EXTRA['C03'] += [(_c19_list_objs, 'R3.12'), (_c04_siblings2, 'R3.13')]
+EXTRA['C05'] += [(_c19_list_objs, 'R5.9'), (_sleep_table, 'R5.10')]
+EXTRA['C14'] = [(_c19_list_objs, 'R14.7'), (_c08_carry, 'R14.8')]
+EXTRA['C01'] += [(_c19_spawn_keys, 'R1.14'), (check_pressure_on_every_put, 'R1.15')]
+EXTRA['C02'] += [(_sleep_table, 'R2.18')]
+KINDS['C07'] = 'FRESH: the consistency deadline is computed from a clock sample taken after the processor returned; DOM: every queued event raises the stream pressure'
+KINDS['C09'] = 'ALLEXITS: a cancellation postponed while a sync handler\'s thread runs is re-raised, whatever the thread\'s outcome'
+KINDS['C14'] = 'cross-wired list_objs item completion (kind/apiVersion of listed objects = those of watched ones) and the carry-forward rules of C08'
+
+
+def _table_a3(ctx: Ctx, rule: str) -> None:
+    from . import _prc
+    _prc.check_table(ctx, rule, 'process_resource_causes (Appendix A.3): a cycle that starts from a carried-forward patch (non-empty at entry, dict content or '
+                     'transformation fns alike) skips the state-dependent handlers (a finished handler is not run again on a view that lacks its record)')
+
+
+EXTRA['C02'] += [(_table_a3, 'R2.19')]
